@@ -242,13 +242,16 @@ CLI_OPTS = [
     ("-cS", ["-c", "-S"]),
 ]
 
+BIN = {}        # profile -> jaqmon path, filled by main() before the workers fork
+
 RT_PROG = "$V[] | tojson as $t | [$t] + (try ([0] + [$t | fromjson]) catch [1, .])"
 TXT_PROG = "$T[] | try ([0] + [fromjson]) catch [1, .]"
 
 
 class Ctx:
     def __init__(self, profile, cli, seed_tag):
-        self.c = par.client(profile)
+        # binaries are built once by main(); workers only start them (no build lock per worker)
+        self.c = par.client(profile, path=BIN.get(profile))
         self.profile = profile
         self.cli = cli
         self.rng = random.Random(seed_tag)
@@ -292,7 +295,7 @@ class Ctx:
         r = self.c.request({"op": "fmt", "dir": "read", "format": "json", "bytes": data.hex(),
                             "via_read": via_read, "limit": 1000000}, timeout=300)
         if r.get("panic"):
-            return None, "panic:" + str(r["panic"].get("loc"))
+            return None, "panic:" + str(r["panic"].get("loc")).split("/repo/")[-1]
         return [dec(x) for x in r.get("vals", [])], r.get("error")
 
     # -- the real binary ------------------------------------------------------------------
@@ -356,7 +359,7 @@ def judge_filter(ctx, v, r):
     """-> difference class or None for one value and its filter_route result"""
     ctx.n["roundtrip_tojson_fromjson"] += 1
     if r["status"] == "panic":
-        return "panic:%s" % r["info"].get("loc")
+        return "panic:%s" % str(r["info"].get("loc")).split("/repo/")[-1]
     if r["status"] == "bad":
         return "evaluation-failed"
     if r["status"] == "rejected":
@@ -699,7 +702,7 @@ def text_one(ctx, text, exp, dups, routes=("filter", "parse", "read", "stdin", "
         if route == "filter":
             st, outs = ctx.eval1(TXT_PROG, [("T", enc([Str(tb, True)]))], 3)
             if st == "panic":
-                return "panic:%s" % outs.get("loc"), route
+                return "panic:%s" % str(outs.get("loc")).split("/repo/")[-1], route
             if st != "ok" or len(outs) != 1:
                 return "evaluation-failed", route
             o = outs[0]
@@ -1403,8 +1406,8 @@ def replay(run, cli):
 def main():
     run = Run("C07")
     cli = build.cli()
-    build.jaqmon("verif")
-    build.jaqmon("release")
+    BIN["verif"] = build.jaqmon("verif")
+    BIN["release"] = build.jaqmon("release")
     if run.replay:
         return replay(run, cli)
     tasks = build_tasks(run, cli)
